@@ -165,6 +165,53 @@ struct Case {
     dst: (f32, f32),
     /// exhibit of the cache returning another input's value (D-CACHE)
     collision: bool,
+    /// features a [state] configuration section declares before the model's (StateModel::try_from)
+    #[serde(default)]
+    pre: Vec<PF>,
+    /// the query's `state_features` overrides (search_app_ops::collect_features appends them)
+    #[serde(default)]
+    over: Vec<PF>,
+}
+#[derive(Clone, Debug, Serialize, Deserialize)]
+enum PFK {
+    Energy(EnergyUnit, #[serde(with = "bits")] f64),
+    Time(TimeUnit, #[serde(with = "bits")] f64),
+    Distance(DistanceUnit, #[serde(with = "bits")] f64),
+    Soc(#[serde(with = "bits")] f64),
+}
+#[derive(Clone, Debug, Serialize, Deserialize)]
+struct PF {
+    name: String,
+    kind: PFK,
+}
+fn pf_json(f: &PF) -> Value {
+    match &f.kind {
+        PFK::Energy(u, i) => json!({"energy_unit": serde_json::to_value(u).unwrap(), "initial": i}),
+        PFK::Time(u, i) => json!({"time_unit": serde_json::to_value(u).unwrap(), "initial": i}),
+        PFK::Distance(u, i) => json!({"distance_unit": serde_json::to_value(u).unwrap(), "initial": i}),
+        PFK::Soc(i) => json!({"type": "soc", "unit": "percent", "format": {"floating_point": {"initial": i}}}),
+    }
+}
+fn pfs_json(fs: &[PF]) -> Value {
+    let mut m = serde_json::Map::new();
+    for f in fs {
+        m.insert(f.name.clone(), pf_json(f));
+    }
+    Value::Object(m)
+}
+fn coq_pfs(fs: &[PF]) -> String {
+    coq_list(fs, |f| {
+        format!(
+            "({}, {})",
+            coq_string(&f.name),
+            match &f.kind {
+                PFK::Energy(u, i) => format!("RFEnergy {} {}", dbg(u), coq_f64(*i)),
+                PFK::Time(u, i) => format!("RFTime {} {}", dbg(u), coq_f64(*i)),
+                PFK::Distance(u, i) => format!("RFDistance {} {}", dbg(u), coq_f64(*i)),
+                PFK::Soc(i) => format!("RFSoc {}", coq_f64(*i)),
+            }
+        )
+    })
 }
 
 // ------------------------------------------------------------------ building the real objects
@@ -303,6 +350,28 @@ fn make_service(
 fn drive(model: &Arc<dyn TraversalModel>, c: &Case) -> Result<(Vec<f64>, Vec<RS>, RS), String> {
     let features = model.state_features();
     let sm_res = match &c.sm {
+        None if !c.pre.is_empty() || !c.over.is_empty() => {
+            // the application's assembly: [state] section -> StateModel::try_from, then extend with
+            // collect_features(query with `state_features`, traversal model, access model)
+            use routee_compass::app::search::search_app_ops::collect_features;
+            use routee_compass_core::model::access::default::no_access_model::NoAccessModel;
+            let base = if c.pre.is_empty() {
+                Ok(StateModel::empty())
+            } else {
+                StateModel::try_from(&pfs_json(&c.pre))
+            };
+            let mut q = json!({});
+            if !c.over.is_empty() {
+                q["state_features"] = pfs_json(&c.over);
+            }
+            match base {
+                Ok(b) => match collect_features(&q, model.clone(), Arc::new(NoAccessModel {})) {
+                    Ok(fs) => b.extend(fs),
+                    Err(e) => Err(e),
+                },
+                Err(e) => Err(e),
+            }
+        }
         None => StateModel::empty().extend(features),
         Some((fe, fl, ft, fd)) => {
             let feats: Vec<(String, StateFeature)> = features
@@ -460,7 +529,7 @@ fn coq_case(c: &Case, hav_m: f64) -> String {
     };
     let edges: Vec<(usize, f64)> = c.edge_ids.iter().cloned().zip(c.edge_len.iter().cloned()).collect();
     format!(
-        "(Build_rcase {} {} {} {} {} {} {} {} {} {} {} {} {})",
+        "(Build_rcase {} {} {} {} {} {} {} {} {} {} {} {} {} {} {})",
         veh,
         q,
         coq_list(&c.speeds, |x| coq_f64(*x)),
@@ -479,7 +548,9 @@ fn coq_case(c: &Case, hav_m: f64) -> String {
             Some((a, b, t, d)) => format!("(Some ({}, {}, {}, {}))", dbg(a), dbg(b), dbg(t), dbg(d)),
         },
         coq_list(&edges, |(i, l)| format!("({}, {})", coq_nat(*i), coq_f64(*l))),
-        coq_f64(hav_m)
+        coq_f64(hav_m),
+        coq_pfs(&c.pre),
+        coq_pfs(&c.over)
     )
 }
 
@@ -553,7 +624,10 @@ fn add_case(st: &mut Stream, c: Case, family: &str, judge_collisions: bool) {
     let units_same = dbg(&c.en_su) == dbg(&c.sv_su);
     st.count(if units_same { "units:time-model-speed-unit=service" } else { "units:time-model-speed-unit!=service" });
     let mut nontrivial = false;
-    if let Ok(st0) = &o.start {
+    if !c.pre.is_empty() || !c.over.is_empty() {
+        st.count("state-model:[state]-section-or-query-override");
+        nontrivial = true;
+    } else if let Ok(st0) = &o.start {
         let soc_idx = match &c.veh {
             Veh::Ice(_) => None,
             _ => Some(1usize),
@@ -748,7 +822,7 @@ fn gen_case(r: &mut Rng, kind: u64, cache_on: bool, shape: Shape, query: Query) 
     let y0 = 39.0 + r.unit_f64() as f32;
     let (dx, dy) = if r.chance(1, 10) { (0.0, 0.0) } else { (0.05 * r.unit_f64() as f32, 0.05 * r.unit_f64() as f32) };
     Case { veh, query, speeds, en_su, en_tu, en_du, sv_su, grades, sv_gu, sv_du, sm, edge_ids, edge_len,
-           src: (x0, y0), dst: (x0 + dx, y0 + dy), collision: false }
+           src: (x0, y0), dst: (x0 + dx, y0 + dy), collision: false, pre: vec![], over: vec![] }
 }
 fn gen_query(r: &mut Rng) -> Query {
     match r.below(20) {
@@ -877,6 +951,146 @@ fn boundary(st: &mut Stream, seed: u64, cache_on: bool, judge: bool) {
             }
             c.collision = true;
             add_case(st, c, "dcache-exhibit", judge);
+        }
+        // DISTINCT cache keys in arithmetic relations must never share an entry: rows (s1, g1), (s2, g2) with
+        // key(s2) - key(s1) = dk and key(g2) - key(g1) = -m * dk for m = 1..64 (precisions [2, 3]), driven alternately
+        let mut ms: Vec<i64> = vec![31, 32, 37, 63, 64, 1, 2, 16, 33];
+        for m in 1..=64i64 {
+            if !ms.contains(&m) {
+                ms.push(m);
+            }
+        }
+        let si = |c: &mut Case| {
+            c.en_su = SpeedUnit::MetersPerSecond;
+            c.en_tu = TimeUnit::Seconds;
+            c.en_du = DistanceUnit::Meters;
+            c.sv_su = SpeedUnit::MetersPerSecond;
+            c.sv_gu = GradeUnit::Decimal;
+            c.sm = None;
+        };
+        let set_cache = |c: &mut Case, cache: (usize, i32, i32)| {
+            let fix = |rec: &mut Rec| {
+                rec.cache = Some(cache);
+                rec.b = rec.a.abs() * 0.01 / speed_in(rec.su, 1.0) * speed_in(SpeedUnit::MetersPerSecond, 1.0);
+            };
+            match &mut c.veh {
+                Veh::Ice(rec) => fix(rec),
+                Veh::Bev(rec, cap, _) => {
+                    fix(rec);
+                    *cap = 1.0e6;
+                }
+                Veh::Phev(cs, cd, cap, _) => {
+                    fix(cs);
+                    fix(cd);
+                    *cap = 1.0e6;
+                }
+            }
+        };
+        let mut pairs: Vec<(i64, i64)> = ms.iter().enumerate().map(|(i, m)| (*m, if i % 2 == 0 { 1 } else { -1 })).collect();
+        pairs.extend([(31, 2), (31, -1), (32, 2), (37, -1), (63, 1), (31, -2)]);
+        for (i, (m, dk)) in pairs.iter().enumerate() {
+            let (m, dk) = (*m, *dk);
+            let mut r = rng.fork();
+            let mut c = gen_case(&mut r, (i % 3) as u64, true, Shape { n_edges: 4, downhill: 0.0, cap_scale: 1.0 }, Query::Int(90));
+            si(&mut c);
+            let k1 = 1500 + r.below(1500) as i64;
+            let g1k = (m * dk) / 2;
+            let g2k = g1k - m * dk;
+            c.speeds = vec![k1 as f64 / 100.0, (k1 + dk) as f64 / 100.0, 33.33];
+            c.grades = Some(vec![g1k as f64 / 1000.0, g2k as f64 / 1000.0, 0.012]);
+            c.edge_ids = if i % 4 < 2 { vec![0, 1, 0, 1] } else { vec![0, 2, 1, 0, 1] };
+            c.edge_len = c.edge_ids.iter().map(|_| 800.0).collect();
+            set_cache(&mut c, (100, 2, 3));
+            add_case(st, c, "distinct-keys-arithmetic", judge);
+        }
+        // keys that differ by 2^31, 2^32, 2^33 in one component (precision 10)
+        for (i, pw) in [32u32, 31, 33, 32, 32].iter().enumerate() {
+            let mut r = rng.fork();
+            let mut c = gen_case(&mut r, (i % 3) as u64, true, Shape { n_edges: 4, downhill: 0.0, cap_scale: 1.0 }, Query::Int(90));
+            si(&mut c);
+            let delta = (1u64 << pw) as f64 / 1.0e10;
+            if i < 4 {
+                c.speeds = vec![1.25, 1.25 + delta, 2.5];
+                c.grades = Some(vec![0.01, 0.01, 0.0]);
+                set_cache(&mut c, (100, 10, 3));
+            } else {
+                c.speeds = vec![12.5, 12.5, 20.0];
+                c.grades = Some(vec![0.01, 0.01 + delta, 0.0]);
+                set_cache(&mut c, (100, 2, 10));
+            }
+            c.edge_ids = vec![0, 1, 2, 0, 1];
+            c.edge_len = c.edge_ids.iter().map(|_| 500.0).collect();
+            add_case(st, c, "distinct-keys-2^32", judge);
+        }
+    }
+    // the application's state-model assembly: a [state] section declaring the vehicle's features beforehand
+    // (other initial value / unit) and `state_features` overrides in the query: the LATER definition counts
+    for kind in 0..3u64 {
+        let soc = |x: f64| PF { name: "battery_state".into(), kind: PFK::Soc(x) };
+        let en = |n: &str, u: EnergyUnit, x: f64| PF { name: n.into(), kind: PFK::Energy(u, x) };
+        let variants: Vec<(Vec<PF>, Vec<PF>, Query)> = if kind == 0 {
+            vec![
+                (vec![en("energy_liquid", EnergyUnit::KilowattHours, 2.5)], vec![], Query::Missing),
+                (vec![], vec![en("energy_liquid", EnergyUnit::GallonsDiesel, 0.0)], Query::Missing),
+                (vec![], vec![PF { name: "time".into(), kind: PFK::Time(TimeUnit::Hours, 0.0) },
+                              PF { name: "distance".into(), kind: PFK::Distance(DistanceUnit::Miles, 0.0) }], Query::Missing),
+            ]
+        } else {
+            vec![
+                (vec![soc(100.0)], vec![], Query::Float(40.0)),
+                (vec![soc(0.0), en("energy_electric", EnergyUnit::GallonsGasoline, 1.5),
+                      PF { name: "time".into(), kind: PFK::Time(TimeUnit::Hours, 3.0) }], vec![], Query::Float(65.5)),
+                (vec![soc(55.5)], vec![], Query::Missing),
+                (vec![], vec![en("energy_electric", EnergyUnit::GallonsGasoline, 0.0)], Query::Int(80)),
+                (vec![], vec![PF { name: "time".into(), kind: PFK::Time(TimeUnit::Hours, 0.0) },
+                              PF { name: "distance".into(), kind: PFK::Distance(DistanceUnit::Miles, 0.0) }], Query::Int(70)),
+                (vec![soc(100.0)], vec![en("energy_electric", EnergyUnit::GallonsDiesel, 0.0)], Query::Float(33.0)),
+                (vec![soc(12.0)], vec![], Query::Float(100.5)),
+            ]
+        };
+        for (pre, over, q) in variants {
+            let mut r = rng.fork();
+            let mut c = gen_case(&mut r, kind, cache_on, Shape { n_edges: 3, downhill: 0.3, cap_scale: 1.0 }, q);
+            c.sm = None;
+            c.pre = pre;
+            c.over = over;
+            if kind == 2 && !c.over.is_empty() && r.chance(1, 2) {
+                c.over.push(en("energy_liquid", EnergyUnit::KilowattHours, 0.0));
+            }
+            add_case(st, c, "state-section-and-overrides", judge);
+        }
+    }
+    if !cache_on {
+        // a battery that is ALMOST but not exactly run down: the start charge is the consumption of the first k edges
+        // plus 5e-10 energy units, so 0 < remaining < 1e-9 after edge k (measured on the implementation with a huge pack)
+        for kind in 1..3u64 {
+            for k in 1..=3usize {
+                for _ in 0..2 {
+                    let mut r = rng.fork();
+                    let mut c = gen_case(&mut r, kind, false, Shape { n_edges: k + 2, downhill: 0.0, cap_scale: 1.0 }, Query::Int(100));
+                    c.sm = None;
+                    c.grades = c.grades.map(|g| g.iter().map(|x| x.abs()).collect());
+                    for i in 0..k {
+                        c.edge_len[i] = 20.0 + 40.0 * r.unit_f64();
+                    }
+                    match &mut c.veh {
+                        Veh::Bev(_, cap, _) | Veh::Phev(_, _, cap, _) => *cap = 1.0e9,
+                        _ => {}
+                    }
+                    let probe = run_impl(&c, &st.dir.clone(), st.next_id());
+                    let used = match probe.edges.get(k - 1) {
+                        Some(Ok(s)) if s[0] > 0.0 => s[0],
+                        _ => continue,
+                    };
+                    let cap_new = 1.5 * used;
+                    match &mut c.veh {
+                        Veh::Bev(_, cap, _) | Veh::Phev(_, _, cap, _) => *cap = cap_new,
+                        _ => {}
+                    }
+                    c.query = Query::Float(100.0 * (used + 5.0e-10) / cap_new);
+                    add_case(st, c, "battery-almost-run-down", judge);
+                }
+            }
         }
     }
 }
@@ -1329,9 +1543,22 @@ fn main() {
                 add_qcase(&mut st, qc, "boundary-charges");
             }
         }
+        // a [state] section pre-declaring battery_state with another initial value, every query keeps its own charge
+        for (i, init) in [100.0, 0.0, 55.5, 100.0].iter().enumerate() {
+            let mut r = brng.fork();
+            let mut qc = gen_qcase(&mut r);
+            qc.base.pre = vec![PF { name: "battery_state".into(), kind: PFK::Soc(*init) }];
+            if i == 3 {
+                qc.base.pre.push(PF { name: "time".into(), kind: PFK::Time(TimeUnit::Hours, 1.0) });
+            }
+            add_qcase(&mut st, qc, "state-section");
+        }
         while st.next_id() < a.n {
             let mut r = rng.fork();
-            let qc = gen_qcase(&mut r);
+            let mut qc = gen_qcase(&mut r);
+            if r.chance(1, 5) {
+                qc.base.pre = vec![PF { name: "battery_state".into(), kind: PFK::Soc(100.0 * r.unit_f64()) }];
+            }
             add_qcase(&mut st, qc, "random");
         }
         st.finish();
